@@ -915,9 +915,13 @@ def rule_ag7(ctx: Ctx) -> RuleResult:
             helpers.add(f)
     # ---- writer -------------------------------------------------------------------------
     inner = [n for n in fd.body if isinstance(n, ast.FunctionDef)]
-    if len(inner) != 1:
-        raise AnalysisError("json.dump_to_file: expected one inner operator function")
-    wfn = inner[0]
+    returned = {x.value.id for x in fd.body if isinstance(x, ast.Return) and isinstance(x.value, ast.Name)}
+    ops_ = [n for n in inner if n.name in returned] or inner
+    if len(ops_) != 1:
+        raise AnalysisError("json.dump_to_file: expected one inner operator function (the one it returns)")
+    wfn = ops_[0]
+    # other local functions of dump_to_file merely assemble the stages: they are followed
+    helpers |= {n for n in inner if n is not wfn}
     writer = {}
     for comp in ("Obj", "None"):
         for p in ctx.fn_paths(md, wfn, cfg={"compression": comp}, only_inline=helpers):
